@@ -27,11 +27,12 @@ type walOp struct {
 }
 
 type c07Case struct {
-	Prefix  []walOp `json:"prefix"`
-	Len     int     `json:"len"`
-	Only    []walOp `json:"only,omitempty"`
-	OnlyMax uint64  `json:"only_max,omitempty"`
-	OnlyBuf int     `json:"only_buf,omitempty"`
+	Prefix  []walOp   `json:"prefix"`
+	Len     int       `json:"len"`
+	Only    []walOp   `json:"only,omitempty"`
+	OnlyMax uint64    `json:"only_max,omitempty"`
+	OnlyBuf int       `json:"only_buf,omitempty"`
+	Crash   *c07Crash `json:"crash,omitempty"`
 }
 
 func walRecords() [][]byte {
@@ -103,6 +104,9 @@ func walProgStr(prog []walOp) string {
 func (c c07) Case(w *core.WCtx, payload json.RawMessage) core.Result {
 	var cs c07Case
 	json.Unmarshal(payload, &cs)
+	if cs.Crash != nil {
+		return c.crashCase(w, cs.Crash)
+	}
 	var r core.Result
 	alpha := walAlphabet()
 	var progs [][]walOp
